@@ -377,7 +377,12 @@ impl TxGen<'_, '_> {
                     _ => vec![0x12, 0x00],
                 })),
                 _ => {
-                    let len = 1 + self.g.below(40);
+                    // mostly short; sometimes around the one-byte / two-byte length boundaries of the encodings
+                    let len = match self.g.weighted(&[4, 1, 1]) {
+                        0 => 1 + self.g.below(40),
+                        1 => 120 + self.g.below(16),
+                        _ => 250 + self.g.below(60),
+                    };
                     DataSpec::Some(Hx((0..len).map(|_| self.g.byte()).collect()))
                 }
             };
@@ -598,7 +603,7 @@ pub fn gen_history(g: &mut Gen, p: &Profile, contracts_hint: &[&str]) -> History
         codes.push(c);
     }
     let staking = g.chance(p.staking_p, 16);
-    let addr_pool = if g.chance(if p.registry || p.hostile_keys { 4 } else { 1 }, 16) { (2 + g.below(3) as u8) | if g.chance(1, 3) { 128 } else { 0 } } else { 0 };
+    let addr_pool = if g.chance(if p.registry || p.hostile_keys { 4 } else { 1 }, 16) { (2 + g.below(3) as u8) | match g.below(6) { 0 | 1 => 128, 2 => 64, _ => 0 } } else { 0 };
     let setup = Setup { balances, codes, validators: if staking { 2 } else { 0 }, unbonding_time: g.pick(&[60u64, 0, 10]), addr_pool, api: g.below(2) as u8 };
     let hostile = hostile_keys(contracts_hint);
     let mut txs = vec![];
